@@ -812,8 +812,8 @@ def gen_list_history(r, nops, et=None, strs=STRS_SAFE, preamble_only=False, nega
     names = ["push", "push", "prepend", "pop", "get", "get", "set", "len", "map", "filter", "fold", "find", "contains", "last"]
     if preamble_only:
         names = [n for n in names if n not in ("contains", "last")]
-    if not is_add(et) or has_str(et) and et != STR:
-        names = [n for n in names if n not in ("map", "fold")]       # + on tuples with strings is a known defect
+    if not is_add(et):
+        names = [n for n in names if n not in ("map", "fold")]
     if geteq:
         names = names + ["geteq", "geteq"]
     if not preamble_only:
